@@ -9,7 +9,7 @@ STATE_FIELDS = (
     "compoRequested", "orthoRequested", "compoActive", "compoResumable", "compoRemains", "compoStatuses",
     "stateParents", "compoParents", "orthoParents", "orthoUnits", "regionHeads", "regionSizes",
     # PlanDataT
-    "tasks", "taskLinks", "taskPayloads", "payloadExists", "tasksBounds", "planExists", "tasksSuccesses", "tasksFailures",
+    "tasks", "taskLinks", "taskPayloads", "payloadExists", "taskBounds", "planExists", "tasksSuccesses", "tasksFailures",
     "headStatuses", "subStatuses",
     # CoreT
     "requests", "transitionTargets", "previousTransitions", "context", "logger", "rng",
